@@ -457,3 +457,58 @@ def r_ptrptr(P, chk):
                                       f.name, f.src(a), t, c.get("callee")))
     chk.floor(rid, n, 25, "byte-buffer arguments")
     chk.analysed[rid] = {"byte_buffer_arguments": n}
+
+
+def r_dirname_once(P, chk):
+    """POSIX dirname() may cut its argument in place ("dir/file.md" becomes "dir"), so a second dirname() of the same
+    string yields the parent of the directory.  In main, no dirname(x) may be followed, in the same pass, by another
+    dirname of the same x - decided on the CFG with tests of the variable that received the first result decided
+    non-null (`if (folder == NULL) folder = dirname(..)` is fine)."""
+    from .prog import edpe_blocks, single_assignment_locals
+    rid = "R-DIRNAME"
+    chk.rule(rid, "main never applies dirname() a second time to a string it has already applied it to (the first call may have "
+                  "truncated it in place; the asset folder handed to the library would be the parent directory)")
+    main = P.func("main", "main.c")
+    pos = main.cfg.positions()
+    calls = [c for c in main.calls("dirname") if c.get("i") in pos]
+    chk.floor(rid, len(calls), 2, "dirname calls in main")
+    for d in calls:
+        k = key(d["c"][1])
+        # the variable that receives the result
+        recv = None
+        p = main.parent(d)
+        while p is not None and p["k"] in ("ImplicitCastExpr", "CStyleCastExpr", "ParenExpr"):
+            p = main.parent(p)
+        if p is not None and p["k"] == "BinaryOperator" and p["op"] == "=":
+            recv = key(p["c"][0])
+        elif p is not None and p["k"] == "VarDecl":
+            recv = p.get("n")
+
+        def decide(t_, recv=recv):
+            t2 = strip(t_)
+            if t2 is None or recv is None:
+                return None
+            if t2["k"] == "DeclRefExpr" and t2["n"] == recv:
+                return True
+            if t2["k"] == "BinaryOperator" and t2["op"] in ("==", "!=") and key(t2["c"][0]) == recv and const_value(t2["c"][1]) == 0:
+                return t2["op"] == "!="
+            return None
+        # stay inside the current pass of an enclosing loop
+        loop_heads = set()
+        for a in main.ancestors(d):
+            if a["k"] in ("ForStmt", "WhileStmt", "DoStmt"):
+                cond = a["c"][1] if a["k"] in ("ForStmt", "DoStmt") else a["c"][0]
+                if cond is not None and cond.get("i") in pos:
+                    loop_heads.add(pos[cond["i"]][0])
+                break
+        b0, i0 = pos[d["i"]]
+        reach = set()
+        for s_ in main.cfg.blocks[b0].rsucc:
+            reach |= edpe_blocks(main, "?none", 0, extra_decide=decide, start=s_, blocked=loop_heads)
+        bad = [c for c in calls if c is not d and key(c["c"][1]) == k and
+               ((pos[c["i"]][0] in reach and pos[c["i"]][0] not in loop_heads) or (pos[c["i"]][0] == b0 and pos[c["i"]][1] > i0))]
+        chk.obligation(rid, "%s: dirname(%s) is not followed by another dirname of the same string" % (main.where(d), k), not bad)
+        for c in bad[:1]:
+            chk.violation(rid, "dirname:twice:%s" % k, main.where(c), "main calls dirname(%s) at line %d although line %d already did: on "
+                          "glibc the first call truncated the string, so this one returns the parent of the input's directory and "
+                          "assets next to the input file are not found" % (k, c["l"], d["l"]))
